@@ -670,8 +670,55 @@ def survivor_program(rnd):
     }
 
 
+def sameval_program(rnd):
+    """A task overrides a scoped value with the very value it holds at that moment (its parent overrode it with
+    the same object), waits for a batch inside the block and reads afterwards. It is awaited by a second parent WITHOUT
+    that override, which - depending on the flush order - may be the one through which it is continued. Its reads are
+    under its OWN override, so they have one answer whoever continues it."""
+    n = [0]
+
+    def item(k):
+        n[0] += 1
+        return ["leaf", ["item", k, "sm%d" % n[0]]]
+
+    name, val = rnd.choice([("sv0", 7), ("sv1", 7), ("at0", 7), ("sv0", True), ("sv0", None)])
+    kind = "attr" if name == "at0" else "ov"
+    inner = [["read", name], ["yield", item(0)], ["read", name]]
+    if rnd.random() < 0.5:
+        inner += [["yield", item(rnd.randrange(2))], ["read", name]]
+    shared = [["with", [kind, name, val], inner]]
+    if rnd.random() < 0.4:
+        shared.insert(0, ["yield", ["leaf", ["none"]]])
+    p1 = [["with", [kind, name, val], [["read", name], ["yield", ["list", [["leaf", ["shared", 0]]]]], ["read", name]]]]
+    p2 = [["yield", item(1)], ["yield", ["tuple", [["leaf", ["shared", 0]]]]], ["read", name]]
+    if rnd.random() < 0.5:
+        p2.insert(1, ["yield", item(1)])
+    members = [["leaf", ["call", "smp1", 1]], ["leaf", ["call", "smp2", 2]]]
+    if rnd.random() < 0.3:
+        members.append(["leaf", ["call", "smp3", 2]])
+    if rnd.random() < 0.6:
+        members.reverse()
+    return {
+        "nodes": [
+            {"style": "asynq", "ret": "return", "body": [["read", name], ["yield", ["list", members]], ["read", name]]},
+            {"style": rnd.choice(["asynq", "method"]), "ret": "return", "body": p1},
+            {"style": "asynq", "ret": "return", "body": p2},
+            {"style": rnd.choice(["asynq", "proxy"]), "ret": "return", "body": shared},
+        ],
+        "root": 0,
+        "shared": [3],
+        "kinds": 2,
+        "faults": {},
+        "flush_faults": {},
+        "keep_reads_under_shared": True,
+        "defaults": {"sv0": "dflt-sv0", "sv1": "dflt-sv1", "at0": "dflt-at0"},
+    }
+
+
 def strip_reads_under_shared(prog):
     """Remove read statements from all nodes reachable from a shared task."""
+    if prog.get("keep_reads_under_shared"):
+        return 0
     seen = set()
     stack = list(prog.get("shared", []))
     while stack:
